@@ -496,22 +496,31 @@ class Context:
             x = to_number(args[0]) if args else float("nan")
             return abs(x)
 
-        def floor_fn(*args):
-            x = to_number(args[0]) if args else float("nan")
-            return math.floor(x)
+        def integral(fn):
+            """floor/ceil/trunc on doubles: NaN, infinities and zeros come back
+            unchanged, a zero result keeps the sign of the argument."""
 
-        def ceil_fn(*args):
-            x = to_number(args[0]) if args else float("nan")
-            return math.ceil(x)
+            def rounding_fn(*args):
+                x = to_number(args[0]) if args else float("nan")
+                if not math.isfinite(x) or x == 0:
+                    return x
+                r = fn(x)
+                if r == 0:
+                    return math.copysign(0.0, x)
+                return r if abs(r) <= 2**53 else float(r)
 
-        def round_fn(*args):
-            x = to_number(args[0]) if args else float("nan")
-            # JavaScript-style round (round half towards positive infinity)
-            return math.floor(x + 0.5)
+            return rounding_fn
 
-        def trunc_fn(*args):
-            x = to_number(args[0]) if args else float("nan")
-            return math.trunc(x)
+        floor_fn = integral(math.floor)
+        ceil_fn = integral(math.ceil)
+        trunc_fn = integral(math.trunc)
+
+        def round_half_up(x):
+            # ties go towards +Infinity; x - floor(x) is exact
+            r = math.floor(x)
+            return r + 1 if x - r >= 0.5 else r
+
+        round_fn = integral(round_half_up)
 
         def min_fn(*args):
             if not args:
@@ -590,7 +599,7 @@ class Context:
                 return 1
             if x < 0:
                 return -1
-            return 0
+            return x  # +0 or -0
 
         def imul_fn(*args):
             # 32-bit integer multiplication
